@@ -45,6 +45,14 @@ Enumeration (E2, ``mc.product`` + ``mc.core.pmap``)
             to ``mda.assembly.total_derivatives`` (the public entry point that caches the minimal couplings of the last
             (inputs, outputs) pair).  Every ordered pair of the request alphabet.
 
+  dtype     the disciplines declare their Jacobian blocks as int64 / float32 / a mix per block (7 policies, see DTYPES;
+            integer-coefficient variants of the systems, so an int64 block holds the exact partials; with integer couplings
+            the MDA is Newton's and the harness picks the first integer pattern with kappa_2(dR/dy) <= 30) x {dense, CSR} x
+            mode x matrix type x LU, requests of one output and of two outputs in both orders handed to
+            ``assembly.total_derivatives`` (one LinearProblem serves all the right-hand sides of a call: a matrix cast to
+            the dtype of an integer right-hand side stays truncated for the following functions).  Same closed form, built
+            from the declared numbers; for float32 policies eps in the tolerance is the float32 one.
+
 Oracle boundaries (rule 1)
 * a block that was not requested but is returned anyway (Jacobian cached by a larger request at the same point) is
   allowed and checked like the others; only *missing* requested blocks are violations.
@@ -176,11 +184,22 @@ def _pattern(cv: int, cu: int, rows: int, cols: int, phase: float) -> np.ndarray
     return pat / np.abs(pat).sum(axis=1).max()
 
 
+def _int_pattern(cv: int, cu: int, rows: int, cols: int, sh: int) -> np.ndarray:
+    r = np.arange(rows)[:, None]
+    c = np.arange(cols)[None, :]
+    ip = ((3 * cv + 5 * cu + 2 * r + 7 * c + 3 * r * c + sh) % 4) - 1
+    if not ip.any():
+        ip[0, 0] = 1
+    return ip
+
+
 class Body:
     """Pure-numpy node: explicit outputs v = c + sum_u B[v,u] u + sum_{design u} Q[v,u] (u*u)/2; optional state equation
     r = Aw w + (same form) with w either solved inside (``solved``) or left as an input."""
 
-    def __init__(self, d: dict, sizes: dict, produced: set, read: set):
+    def __init__(self, d: dict, sizes: dict, produced: set, read: set, dt: str = "f64", salt: int = 0):
+        self.dt = dt
+        self.read = read
         self.name = d["name"]
         self.ins = list(d["ins"])
         self.outs = list(d["outs"])
@@ -200,6 +219,15 @@ class Body:
             for u in self.ins:
                 cu = _code(u)
                 pat = _pattern(cv, cu, sizes[v], sizes[u], 0.4)
+                if self._integer_block(row_of_r, u in self.design):
+                    # integer coefficients (dtype policies "int/..."): entries in {-1, 0, 1, 2}, never an all-zero block; no
+                    # quadratic term, so that the block is integral at every point and can be declared as an int64 array
+                    n = sizes[u]
+                    ip = _int_pattern(cv, cu, sizes[v], n, sh + 7 * salt)
+                    if self.state.get(v) == u:
+                        ip = (3 * np.eye(n) + np.triu(ip, 1) - np.tril(ip, -1).clip(-1, 0)) if self.solved else (-np.eye(n) + np.triu(ip, 1))
+                    self.B[v, u] = ip.astype(float)
+                    continue
                 if u in self.design:
                     self.B[v, u] = (0.6 + 0.2 * ((cv + cu) % 4)) * pat
                     self.Q[v, u] = (0.3 + 0.1 * ((cv + 2 * cu) % 3)) * _pattern(cv, cu, sizes[v], sizes[u], 1.9)
@@ -212,6 +240,30 @@ class Body:
                     self.B[v, u] = (-gain if (cv + cu) % 2 else gain) * pat
                 else:
                     self.B[v, u] = (0.5 + 0.25 * ((cv + cu + sh) % 3)) * pat  # non-coupling output reading a coupling / state
+
+    # -- dtype policies -----------------------------------------------------------------------
+    def _integer_block(self, row_of_r: bool, wrt_design: bool) -> bool:
+        dt = self.dt
+        if not dt.startswith("int/"):
+            return False
+        if not row_of_r:
+            return dt in ("int/F", "int/all")
+        if wrt_design:
+            return dt in ("int/Rx", "int/R", "int/all")
+        return dt in ("int/R", "int/all")
+
+    def declare(self, v: str, block: np.ndarray) -> np.ndarray:
+        """The array the discipline declares for a block of row v: the dtype axis.  int/*: an integral block is an int64
+        array (the others stay float64); f32/all | f32/F | f32/R: float32 for all rows | the non-coupling outputs | the
+        rows of the residual system.  The oracle is built from float64(declare(...)), i.e. from the declared numbers."""
+        dt = self.dt
+        if dt.startswith("int/"):
+            return block.astype(np.int64) if np.array_equal(block, np.round(block)) else block
+        if dt.startswith("f32/"):
+            row_of_r = v in self.read or v in self.state or v in self.state.values()
+            if dt == "f32/all" or (dt == "f32/R") == row_of_r:
+                return block.astype(np.float32)
+        return block
 
     # -- evaluation ---------------------------------------------------------------------------
     def _affine(self, v, data, skip=()):
@@ -245,7 +297,7 @@ class Body:
         j = self.B[v, u].copy()
         if (v, u) in self.Q:
             j = j + self.Q[v, u] * np.asarray(data[u], dtype=float)[None, :]
-        return j
+        return self.declare(v, j).astype(float)  # the declared numbers (float32 rounding included)
 
     def jac(self, data: dict) -> dict:
         """What the gemseo discipline declares: partials; for a state output w the derivative of the solved state
@@ -266,11 +318,34 @@ class Body:
         return out
 
 
-def bodies(graph: str):
+_SALTS: dict = {}
+
+
+def _salt(graph: str, dt: str) -> int:
+    """Integer coupling blocks (int/R, int/all) can make dR/dy singular: the first member of a deterministic family of
+    integer patterns whose residual Jacobian has kappa_2 <= 30 is used (computed by the harness, per value alphabet)."""
+    if dt not in ("int/R", "int/all"):
+        return 0
+    key = (ALPHA["name"], graph, dt)
+    if key not in _SALTS:
+        for salt in range(80):
+            try:
+                if Oracle(graph, 0, dt, salt=salt).kappa <= 30.0:
+                    _SALTS[key] = salt
+                    break
+            except np.linalg.LinAlgError:
+                continue
+        else:
+            raise RuntimeError(f"no well-conditioned integer system for {key}")
+    return _SALTS[key]
+
+
+def bodies(graph: str, dt: str = "f64", salt: int | None = None):
     spec = system_specs()[graph]
     produced = {v for d in spec["discs"] for v in d["outs"]}
     read = {u for d in spec["discs"] for u in d["ins"]}
-    return spec, [Body(d, spec["sizes"], produced, read) for d in spec["discs"]]
+    salt = _salt(graph, dt) if salt is None else salt
+    return spec, [Body(d, spec["sizes"], produced, read, dt, salt) for d in spec["discs"]]
 
 
 def xpoint(k: int, sizes: dict) -> dict:
@@ -282,8 +357,10 @@ def xpoint(k: int, sizes: dict) -> dict:
 # oracle
 # ------------------------------------------------------------------------------------------------
 class Oracle:
-    def __init__(self, graph: str, point: int):
-        self.spec, self.bodies = bodies(graph)
+    def __init__(self, graph: str, point: int, dt: str = "f64", salt: int | None = None):
+        self.dt = dt
+        self.eps = float(np.finfo(np.float32).eps) if dt.startswith("f32/") else EPS  # precision of the declared blocks
+        self.spec, self.bodies = bodies(graph, dt, salt)
         sizes = self.sizes = self.spec["sizes"]
         bs = self.bodies
         self.x = xpoint(point, sizes)
@@ -356,7 +433,7 @@ class Oracle:
         blk = tot[:, self.xoff[x]:self.xoff[x] + self.sizes[x]]
         nfy = max(1.0, float(np.linalg.norm(fy, 2)))
         nbx = max(1.0, float(np.linalg.norm(self.Bx, 2)))
-        bound = (100.0 * LIN_TOL + 1000.0 * EPS * self.kappa) * nfy * self.Ainv_norm * nbx + 100.0 * EPS * float(np.abs(tot).max())
+        bound = (100.0 * LIN_TOL + 1000.0 * self.eps * self.kappa) * nfy * self.Ainv_norm * nbx + 100.0 * self.eps * float(np.abs(tot).max())
         return blk, bound
 
     def monolithic(self, fn: str, x: str):
@@ -439,7 +516,7 @@ def _gemseo():
             ins = self.body.ins if self.fill == "all" else [u for u in self.body.ins if u in set(input_names)]
             outs = self.body.outs if self.fill == "all" else [v for v in self.body.outs if v in set(output_names)]
             conv = {"dense": lambda m: m, "csr": csr_matrix, "operator": MatOp}[self.rep]
-            self.jac = {v: {u: conv(full[v][u]) for u in ins} for v in outs}
+            self.jac = {v: {u: conv(self.body.declare(v, full[v][u])) for u in ins} for v in outs}
 
     if FAST_STATISTICS:
         # Every Discipline object creates 3 multiprocessing.Value (OS semaphores, ~3-10 ms each on a loaded machine) for
@@ -477,7 +554,7 @@ WEAK_GRAPHS = ("weakdown", "weakup")
 
 def build_mda(cfg: dict, x0: dict):
     g = _gemseo()
-    spec, bs = bodies(cfg["graph"])
+    spec, bs = bodies(cfg["graph"], cfg.get("dt", "f64"))
     discs = [g["Harness"](b, cfg.get("rep", "dense"), cfg.get("fill", "requested"), x0) for b in bs]
     lin = dict(linear_solver=cfg.get("solver", "DEFAULT"), use_lu_fact=bool(cfg.get("lu")), linear_solver_tolerance=LIN_TOL)
     kind = cfg.get("mda", "MDAGaussSeidel")
@@ -622,7 +699,7 @@ class _guard:
 
 def one_request(cfg: dict, point: int, ins, outs):
     """Fresh disciplines + fresh MDA, one linearize.  -> (jac | None, observations, [(inv, msg)])."""
-    oracle = _oracle(cfg["graph"], point)
+    oracle = _oracle(cfg["graph"], point, cfg.get("dt", "f64"))
     obs = {}
     try:
         with _guard():
@@ -664,10 +741,10 @@ def _is_breakdown(e: Exception, cfg: dict) -> bool:
 _ORACLES: dict = {}
 
 
-def _oracle(graph, point) -> Oracle:
-    key = (ALPHA["name"], graph, point)
+def _oracle(graph, point, dt="f64") -> Oracle:
+    key = (ALPHA["name"], graph, point, dt)
     if key not in _ORACLES:
-        o = Oracle(graph, point)
+        o = Oracle(graph, point, dt)
         spec = o.spec
         for fn in spec["req_out"]:  # harness self-check: formula == monolithic solve
             for x in spec["req_in"]:
@@ -679,7 +756,7 @@ def _oracle(graph, point) -> Oracle:
 
 
 def cfg_key(cfg):
-    return tuple(cfg.get(k) for k in ("graph", "mda", "mode", "mtype", "lu", "solver", "rep", "fill", "inner"))
+    return tuple(cfg.get(k) for k in ("graph", "mda", "mode", "mtype", "lu", "solver", "rep", "fill", "inner", "dt"))
 
 
 # ------------------------------------------------------------------------------------------------
@@ -698,7 +775,7 @@ def _requests(cfg, which):
 def part_product(case, tally):
     """One configuration x one input point: every (input subset, output subset), each on fresh objects."""
     cfg, point = case["cfg"], case["point"]
-    oracle = _oracle(cfg["graph"], point)
+    oracle = _oracle(cfg["graph"], point, cfg.get("dt", "f64"))
     out = {"violations": [], "requests": []}
     reference = {}  # (o, i) -> (block, request) of the first request that returned it
     reqs = _requests(cfg, case.get("requests", "all"))
@@ -830,7 +907,7 @@ def _assembly_call(mda, cfg, ins, outs):
 def history_assembly(cfg, point, r1, r2):
     """One executed MDA; two successive requests (any two: a subset after a superset is possible here) handed to the
     public ``JacobianAssembly.total_derivatives`` of the MDA's assembly."""
-    orc = _oracle(cfg["graph"], point)
+    orc = _oracle(cfg["graph"], point, cfg.get("dt", "f64"))
     bad, obs = [], {}
     try:
         spec, bs, discs, mda = build_mda(cfg, xpoint(0, orc.sizes))
@@ -918,6 +995,84 @@ PARTS["history"] = part_history
 
 
 # ------------------------------------------------------------------------------------------------
+# dtype axis: the disciplines declare their Jacobian blocks as int64 / float32 / a mix per block
+# ------------------------------------------------------------------------------------------------
+DTYPES = ["int/F", "int/Rx", "int/R", "int/all", "f32/all", "f32/F", "f32/R"]
+#   int/F   non-coupling outputs have integer coefficients: dF/dy, dF/dx are int64 arrays, dR/dy, dR/dx float64
+#   int/Rx  the couplings depend on the design variables through integer blocks: dR/dx int64, the rest float64
+#   int/R   every block of the residual system is int64 (dR/dy, dR/dx), dF/. float64        [Newton MDA: no contraction]
+#   int/all everything int64                                                                  [Newton MDA]
+#   f32/all | f32/F | f32/R   float32 everywhere | for dF/. only | for the residual rows only
+
+
+def dtype_calls(cfg, which="all"):
+    """Ordered requests for ``JacobianAssembly.total_derivatives``: one output, two outputs in both orders; all design
+    inputs, the first one alone ("reduced": the single input only with a single output)."""
+    import itertools
+
+    spec = system_specs()[cfg["graph"]]
+    singles = [[o] for o in spec["req_out"]]
+    pairs = [list(p) for p in itertools.permutations(spec["req_out"], 2)]
+    all_in, one_in = list(spec["req_in"]), spec["req_in"][:1]
+    calls = [[one_in, o] for o in singles] + [[all_in, o] for o in singles + pairs]
+    if which == "all":
+        calls += [[one_in, o] for o in pairs]
+    return calls
+
+
+def part_dtype(case, tally):
+    """One configuration x one declared-dtype policy: every ordered request, each on fresh objects, through the assembly
+    (``Discipline.linearize`` does not keep the order of the outputs; the assembly processes the functions in the order given,
+    re-using one LinearProblem for all the right-hand sides of a call)."""
+    cfg, point = case["cfg"], case["point"]
+    orc = _oracle(cfg["graph"], point, cfg["dt"])
+    calls = dtype_calls(cfg, case["calls"]) if case.get("calls", "all") in ("all", "reduced") else case["calls"]
+    out = {"violations": [], "calls": []}
+    for ins, outs in calls:
+        bad, obs, jac = [], {}, None
+        try:
+            with _guard():
+                spec, bs, discs, mda = build_mda(cfg, xpoint(0, orc.sizes))
+                mda.execute({k: v.copy() for k, v in orc.x.items()})
+                obs["mda_residual"] = float(mda.normed_residual)
+                jac = _assembly_call(mda, cfg, ins, outs)
+        except _RequestTimeout:
+            bad.append(("linearize-terminates", f"no answer within {REQUEST_TIMEOUT} s"))
+            obs["timeout"] = True
+        except Exception as e:
+            if _is_breakdown(e, cfg):
+                obs["breakdown"] = True
+            else:
+                bad.append(("linearize-raises", f"{type(e).__name__}: {str(e)[:300]}"))
+        if jac is not None:
+            b, worst = check_jac(jac, orc, ins, outs)
+            bad += b
+            obs["worst_error_over_bound"] = worst
+            obs["block_dtypes"] = sorted({str(getattr(jac[o][i], "dtype", "?")) for o in outs for i in ins if o in jac and i in jac[o]})
+        shape = ("one-output" if len(outs) == 1 else "two-outputs-ordered") + ("" if len(ins) > 1 else ",one-input")
+        for inv, msg in bad:
+            sig = signature(inv, cfg, shape, msg)
+            sig.update(dtype=cfg["dt"], rep=cfg.get("rep", "dense"), level="assembly")
+            tally.violation(sig, {**case, "calls": [[ins, outs]]}, f"{inv}: {msg}\n  config={cfg} point={point} inputs={ins} outputs(ordered)={outs}")
+            out["violations"].append({"invariant": inv, "inputs": ins, "outputs": outs, "message": msg})
+        tally.case((cfg_key(cfg), point, tuple(ins), tuple(outs), "dtype"), nontrivial=True,
+                   outcome=f"dtype:{cfg['dt']}:{cfg.get('rep', 'dense')}:{'breakdown' if obs.get('breakdown') else 'raises' if jac is None else 'ok' if not bad else 'bad'}"
+                           f":{'conv' if obs.get('mda_residual', 1) <= MDA_TOL * 10 else 'notconv'}",
+                   sample={"config": cfg, "inputs": ins, "outputs": outs, **obs} if cfg["graph"] == "selfc" and cfg["dt"] == "int/all" and cfg.get("mode") == "adjoint" and len(outs) == 2 and len(ins) > 1 and outs[0] == "fa" else None)
+        if obs.get("breakdown"):
+            tally.count(f"lanczos_type_solver_breakdown_accepted:{cfg['graph']}:{cfg['solver']}")
+        out["calls"].append({"inputs": ins, "outputs": outs, **obs,
+                             "jacobian": None if jac is None else {o: {i: _dense(jac[o][i]).tolist() for i in jac[o]} for o in jac}})
+        if obs.get("timeout"):
+            tally.count("requests_skipped_after_a_timeout", len(calls) - len(out["calls"]))
+            break
+    return out
+
+
+PARTS["dtype"] = part_dtype
+
+
+# ------------------------------------------------------------------------------------------------
 # enumeration
 # ------------------------------------------------------------------------------------------------
 MODES = ["auto", "direct", "adjoint"]
@@ -992,12 +1147,27 @@ def cases(thorough: bool, solvers: list):
                     yield {"part": "history", "level": "assembly", "cfg": cfg, "points": [1, 1], "r1": r1, "r2": alphabet}
 
 
+DTYPE_GRAPHS_QUICK = ["weakdown", "selfc", "ressolved"]  # a function reading every coupling (all-integer dF/dy row) | -I branches | states
+
+
+def dtype_cases(thorough: bool, solvers: list):
+    """E. declared dtype of the disciplines' Jacobian blocks x {dense, CSR} x mode x matrix type x LU, ordered requests."""
+    for dt in DTYPES:
+        kind = "MDANewtonRaphson" if dt in ("int/R", "int/all") else DEFAULT_KIND  # integer couplings: no contraction
+        for rep in ("dense", "csr"):
+            for lin in linear_configs(solvers if thorough else ["DEFAULT"], ["DEFAULT"]):
+                for graph in (GRAPHS if thorough else DTYPE_GRAPHS_QUICK):
+                    yield {"part": "dtype", "cfg": {"graph": graph, "mda": kind, **lin, "rep": rep, "dt": dt}, "point": 1,
+                           "calls": "all" if thorough else "reduced"}
+
+
 def run(ctx):
     global ALPHA
     ALPHA = ctx.pick(ALPHABETS)
     g = _gemseo()
     only = getattr(ctx, "only", None)
-    todo = [c for c in cases(ctx.thorough, g["solvers"]) if not only or only in (c["part"], c.get("level"), c["cfg"]["graph"], c["cfg"]["mda"])]
+    todo = [c for c in [*cases(ctx.thorough, g["solvers"]), *dtype_cases(ctx.thorough, g["solvers"])]
+            if not only or only in (c["part"], c.get("level"), c["cfg"]["graph"], c["cfg"]["mda"], c["cfg"].get("dt"))]
     counts = {}
     for c in todo:
         k = c["part"] + (":" + c["level"] if "level" in c else "")
@@ -1022,11 +1192,14 @@ def run(ctx):
         + (" x 5 MDA kinds (x 2 input points for the default kind; second point with the default solver for the others); 3 representations of "
            "the disciplines' Jacobians x 5 kinds x mode x matrix type x LU" if ctx.thorough else "; the second input point, the 4 other MDA kinds, 3 representations of the "
            "disciplines' Jacobians are crossed with mode x matrix type x LU at the default solver")
+        + "; declared dtype of the partials (7 policies: int64 / float32 / mixed per block) x {dense, CSR} x mode x matrix type x LU x ordered "
+        "one- and two-output requests through JacobianAssembly.total_derivatives"
         + "; histories: every ordered pair of requests on the same MDA object through the discipline API (cumulative requests + "
         "compute_all_jacobians) and through JacobianAssembly.total_derivatives (arbitrary pairs).  A case is non-trivial when the request "
         "is a strict subset or contains a coupling (product) or when the two requests differ (histories)",
         "exhaustive": True,
         "bounds": {"graphs": GRAPHS, "disciplines": "2-3", "sizes": {"y": ALPHA["ysz"], "x": ALPHA["xsz"], "f": ALPHA["fsz"]},
+                   "dtype_policies": DTYPES, "dtype_graphs": GRAPHS if ctx.thorough else DTYPE_GRAPHS_QUICK,
                    "linear_solver_tolerance": LIN_TOL, "mda_tolerance": MDA_TOL, "mda_kinds": MDA_KINDS,
                    "history_request_alphabet": "49 subsets (+ ALL), every ordered pair, for the default MDA kind; input subsets of size 1 and 3 for the other kinds" if ctx.thorough
                    else "input subsets of size 1 and 3 x 7 output subsets (+ ALL at the discipline API): 29 x 29 and 28 x 28 ordered pairs per graph"},
